@@ -1128,7 +1128,7 @@ class FortranFile:
             if self.fixed:  # Fixed format file
                 tmp_line = curr_line
                 tmp_ind = None  # index of tmp_line in pre_lines, None: curr_line
-                while line_ind > 0:
+                while line_ind >= 0:
                     if not FRegex.FIXED_CONT.match(tmp_line):
                         break
                     if tmp_ind is None:
@@ -1153,7 +1153,7 @@ class FortranFile:
                     curr_line = (
                         " " * opt_cont_match.end(0) + curr_line[opt_cont_match.end(0) :]
                     )
-                while line_ind > 0:
+                while line_ind >= 0:
                     tmp_line = strip_strings(
                         self.get_line(line_ind, pp_content), maintain_len=True
                     )
